@@ -11,7 +11,11 @@ Sub-checks
           feasible competitors, an independent eigen-decomposition reference, isometry operator space <-> stacked space,
           idempotence, fixed points, object-level == variable-level, snapshots).
   errors  error branches (Povm equality projection on a non-Hermitian basis).
-  large   default settings at scale 1e3 (the property quantifies over scales up to 1e3).
+  large   raw Gaussian parameter vectors of scale 1e3 under default settings, object- and variable-level (the property
+          quantifies over scales up to 1e3; before repair truncate-hs-relative-imag-threshold these raised ValueError).
+  eigclip the implementation's output operators against the Coq model of its own algorithm after eigh (Model/C04_EigClip.v:
+          clip, rebuild with the conjugate transpose; theorem C04_eig_clip_nearest), executed exactly on LAPACK's (w, U);
+          eigh's contract (the theorem's hypothesis) is checked numerically.
   certself  tripwire for the certificate code itself: wrong projections must be rejected, exact ones accepted.
 
 Tolerances (documented constants)
@@ -21,8 +25,11 @@ Tolerances (documented constants)
                                         zeroes coefficients below atol).  Measured on the unchanged tree the three
                                         certificate margins are <= 2e-15*s (1q .. qubit x qutrit, scales 1e-3 .. 1e3),
                                         i.e. the constants leave a factor >= 5e4.
-  scales > 10 are run under Settings.set_atol(1e-14*scale) because with the default atol=1e-13 truncate_hs rejects the
-  rounding noise of the imaginary parts (finding C04-2; asserted separately by sub-check `large`).
+  Every scale runs under quara's DEFAULT settings (atol = 1e-13).  If an inequality projection raises the truncate_hs
+  ValueError (the behaviour before repair fixes/truncate-hs-relative-imag-threshold.diff: an ABSOLUTE threshold on the
+  imaginary rounding noise, which grows with the size of the entries) that is reported as
+  matrix_util.truncate_hs<-calc_proj_ineq_constraint / raises-at-large-scale, and the nearest-point checks of that case are
+  still run under Settings.set_atol(1e-14*scale) so that a second defect cannot hide behind the first.
 """
 import numpy as np
 from common import flow
@@ -49,21 +56,27 @@ def get_sys(key):
     return c
 
 
-class atol_for_scale:
-    """quara's global absolute tolerance: default up to scale 10, 1e-14*scale above (see module docstring)."""
+class quara_atol:
+    """quara's global absolute tolerance for the duration of a block (restored to the default afterwards)"""
 
-    def __init__(self, scale):
-        self.scale = scale
+    def __init__(self, atol=DEFAULT_ATOL):
+        self.atol = float(atol)
 
     def __enter__(self):
         from quara.settings import Settings
         self.S = Settings
-        self.atol = DEFAULT_ATOL if self.scale <= 10 else float(1e-14 * self.scale)
         Settings.set_atol(self.atol)
         return self.atol
 
     def __exit__(self, *a):
         self.S.set_atol(DEFAULT_ATOL)
+
+
+SITE_TRUNC = "matrix_util.truncate_hs<-calc_proj_ineq_constraint"
+
+
+def is_truncate_error(e):
+    return isinstance(e, ValueError) and "imaginary parts of entries of matrix" in str(e)
 
 
 # ---------------------------------------------------------------------------------- objects
@@ -418,19 +431,28 @@ def chk_eq(ctx, case):
         out = C.calc_proj_eq_constraint_with_var(c, var, on_para_eq_constraint=f)
         out = np.array(out, dtype=np.float64).copy()
         ctx.count("eq", key=(T, case["sys"], m, f, case["seed"], "var"), nontrivial=nontriv, label="var/%s/%s" % (T, "T" if f else "F"))
+        mutated = not np.array_equal(var, var0)
+        diag = ""
         if T == "mprocess" and d <= 3 and m <= 3:
-            # the array-heap model (Model/C04_Heap.v) predicts BOTH the returned array and the contents of var after the call
-            hv = [float(v) for v in ctx.get_model().call("c04.mp_heap", [1 if f else 0, m, d * d], [float(v) for v in var0])]
+            # the array-heap model (Model/C04_Heap.v h_proj_eq_with_var = the code with repair
+            # mprocess-proj-eq-var-mutates-argument; theorems C04_mprocess_eq_proj_with_var_pure / _value) predicts BOTH the
+            # returned array and the contents of var after the call
+            zs, qs = [1 if f else 0, m, d * d], [float(v) for v in var0]
+            hv = [float(v) for v in ctx.get_model().call("c04.mp_heap", zs, qs)]
             h_var, h_out = np.array(hv[:len(var0)]), np.array(hv[len(var0):])
-            pred = maxabs(h_var, var0) > 0
-            ctx.count("eq", key=None, nontrivial=False, label="heap-model/%s/pred-%s/impl-%s" % ("T" if f else "F", "mutates" if pred else "pure", "pure" if np.array_equal(var, var0) else "mutates"))
+            ctx.count("eq", key=None, nontrivial=False, label="heap-model/%s/impl-%s" % ("T" if f else "F", "mutates" if mutated else "pure"))
+            if maxabs(h_var, var0) > 0:
+                ctx.violation("eq", "Model/C04_Heap.v", "heap-model-mismatch", "the executed heap model modifies var although C04_mprocess_eq_proj_with_var_pure says it cannot (flag %s) (%s)" % (f, bucket), dict(case, flag_var=f))
             if maxabs(h_out, out) > tol:
                 ctx.violation("eq", "Model/C04_Heap.v", "heap-model-mismatch", "heap model returns a different array than the implementation (%.3e, flag %s) (%s)" % (maxabs(h_out, out), f, bucket), dict(case, flag_var=f))
-            if not np.array_equal(var, var0) and maxabs(h_var, var) > tol:
-                ctx.violation("eq", "Model/C04_Heap.v", "heap-model-mismatch", "the implementation modifies var differently from the heap model (%.3e, flag %s) (%s)" % (maxabs(h_var, var), f, bucket), dict(case, flag_var=f))
-        if not np.array_equal(var, var0):
+            if mutated:
+                # diagnostic: is this the behaviour of the code as it was before the repair (writes through the views of var)?
+                pv_ = [float(v) for v in ctx.get_model().call("c04.mp_heap_prefix", zs, qs)]
+                diag = ("; the contents of var after the call %s the heap model of the code BEFORE repair mprocess-proj-eq-var-mutates-argument (hss are views of var, `hs[0] -= vec / len(hss)` writes through them)"
+                        % ("equal" if maxabs(np.array(pv_[:len(var0)]), var) <= tol else "differ from"))
+        if mutated:
             ctx.violation("eq", name + ".calc_proj_eq_constraint_with_var", "mutates-argument",
-                          "the var array handed to calc_proj_eq_constraint_with_var(on_para_eq_constraint=%s) was modified in place (max change %.3e) (%s)" % (f, maxabs(var, var0), bucket),
+                          "the var array handed to calc_proj_eq_constraint_with_var(on_para_eq_constraint=%s) was modified in place (max change %.3e) (%s)%s" % (f, maxabs(var, var0), bucket, diag),
                           dict(case, flag_var=f))
         st, mv = model_eq_var(ctx, T, d, f, var0)
         mv = np.array([float(v) for v in mv]) if st == "ok" else None
@@ -455,6 +477,9 @@ def chk_eq(ctx, case):
                           "object-level (generate_from_var -> project -> to_var) and variable-level projections differ by %.3e (flag %s) (%s)" % (maxabs(out2, out), f, bucket), dict(case, flag_var=f))
         v3 = var0.copy()
         out3 = np.array(of.func_calc_proj_eq_constraint_with_var(f)(v3), dtype=np.float64)
+        if not np.array_equal(v3, var0):
+            ctx.violation("eq", "QOperation.func_calc_proj_eq_constraint_with_var", "mutates-argument",
+                          "the closure handed to the optimisers modified its var argument (flag %s, max change %.3e) (%s)" % (f, maxabs(v3, var0), bucket), dict(case, flag_var=f))
         if maxabs(out3, out) > 0 and maxabs(out3, out) > tol:
             ctx.violation("eq", "QOperation.func_calc_proj_eq_constraint_with_var", "value", "closure differs from the static method by %.3e (flag %s)" % (maxabs(out3, out), f), dict(case, flag_var=f))
         # (b) to_var(P(obj)) == P_var(to_var(obj)) whenever the parametrisation does not discard what P changes
@@ -470,7 +495,7 @@ def chk_eq(ctx, case):
 
 
 def sub_eq(ctx):
-    cases = gen_eq_cases(ctx, ctx.n(300, 2400))
+    cases = gen_eq_cases(ctx, ctx.n(300, 2000))
     ctx.sample("eq", dict(cases[0], data=cases[0]["data"][:8]))
     ctx.run_cases("eq", chk_eq, cases)
 
@@ -535,7 +560,7 @@ def check_projection_pair(ctx, case, site, bucket, Ys, Xs, atol, nrng, replay, n
     for idx, (Y, X) in enumerate(zip(Ys, Xs)):
         s, eps, delta = cert_consts(X, Y, atol)
         ah = max(antiherm(X), antiherm(Y))
-        if ah > 1e-9 * max(s, atol):
+        if ah > 1e-9 * s + atol:          # defects below the code's own truncation threshold carry no information
             ctx.violation("ineq", site, "not-hermitian", "operator %d is not Hermitian (%.3e) (%s)" % (idx, ah, bucket), replay)
             ok_all = False
             continue
@@ -556,20 +581,21 @@ def check_projection_pair(ctx, case, site, bucket, Ys, Xs, atol, nrng, replay, n
                 ok_all = False
                 break
         R = ref_psd_proj(Y)
-        if float(np.linalg.norm(R - X)) > 1e-9 * max(s, 1e3 * atol):
+        # the code zeroes coefficients below atol: up to k^2 coefficients in an orthonormal basis, i.e. up to k*atol in Frobenius norm
+        if float(np.linalg.norm(R - X)) > 1e-9 * s + 2 * X.shape[0] * atol:
             ctx.violation("ineq", site, "differs-from-reference", "output differs from an independent eigen-decomposition reference by %.3e (operator %d, %s) although the certificate accepted" % (float(np.linalg.norm(R - X)), idx, bucket), replay)
             ok_all = False
     return ok_all
 
 
-def chk_ineq(ctx, case):
+def _ineq_body(ctx, case, atol, default_settings):
     T = case["type"]; c = get_sys(case["sys"]); d = c.dim; m = case["m"]; scale = case["scale"]; flag = case["flag"]
     C = cls_of(T); name = C.__name__
     x_in = np.array(case["data"], dtype=np.float64)
     nrng = np.random.default_rng(case["seed"])
     kinds = case["kinds"]
     bucket = "%s/%s/m%d/%s/%s/scale=%g" % (T, case["sys"], m, "+".join(sorted(set(kinds))), "T" if flag else "F", scale)
-    with atol_for_scale(scale) as atol:
+    if True:
         tolv = TOL_EQ * scale + 10 * atol
         o0 = build(T, c, x_in, m, flag)
         var0 = np.array(o0.to_var(), dtype=np.float64).copy()
@@ -606,8 +632,12 @@ def chk_ineq(ctx, case):
         p2 = stacked(p.calc_proj_ineq_constraint())
         if maxabs(p2, px) > tolv:
             ctx.violation("ineq", name + ".calc_proj_ineq_constraint", "not-idempotent", "P(P(x)) differs from P(x) by %.3e (%s)" % (maxabs(p2, px), bucket), case)
-        if lab in ("psd", "zero") and maxabs(px, x) > tolv:
-            ctx.violation("ineq", name + ".calc_proj_ineq_constraint", "moves-feasible-point", "PSD input moved by %.3e (%s)" % (maxabs(px, x), bucket), case)
+        # `lab` calls eigenvalues above -1e-9*(largest |eigenvalue| of ANY operator of the object) non-negative; the nearest point
+        # of such an input lies at distance ||negative parts||_F (isometry), so that much movement is what the property demands
+        negn = float(np.sqrt((np.clip(spect, None, 0.0) ** 2).sum()))
+        if lab in ("psd", "zero") and maxabs(px, x) > tolv + 2 * negn:
+            ctx.violation("ineq", name + ".calc_proj_ineq_constraint", "moves-feasible-point",
+                          "PSD input (negative parts %.3e) moved by %.3e (%s)" % (negn, maxabs(px, x), bucket), case)
         # variable level: same point as the object level, operand untouched
         v1 = var0.copy()
         out = np.array(C.calc_proj_ineq_constraint_with_var(c, v1, on_para_eq_constraint=flag), dtype=np.float64)
@@ -617,7 +647,7 @@ def chk_ineq(ctx, case):
         if maxabs(out, pv) > tolv:
             ctx.violation("ineq", name + ".calc_proj_ineq_constraint_with_var", "object-vs-variable",
                           "variable-level inequality projection differs from to_var(object-level projection) by %.3e (flag %s) (%s)" % (maxabs(out, pv), flag, bucket), case)
-        if scale <= 10:     # the closures build their objects with the default settings
+        if default_settings:     # the closures build their objects with the default settings
             v2 = var0.copy()
             out2 = np.array(o0.func_calc_proj_ineq_constraint(flag)(v2), dtype=np.float64)
             v3 = var0.copy()
@@ -631,8 +661,35 @@ def chk_ineq(ctx, case):
             # flag False: variables ARE the stacked vector, so the variable-level output is itself certified
             Xv = operators(T, c, out, m)
             dv = sum(float(np.linalg.norm(A - B)) for A, B in zip(Xv, Xs))
-            if dv > 1e-9 * max(sn, atol):
+            if dv > 1e-9 * sn + 10 * atol:
                 ctx.violation("ineq", name + ".calc_proj_ineq_constraint_with_var", "object-vs-variable", "operators of the variable-level output differ by %.3e (%s)" % (dv, bucket), case)
+
+
+def chk_ineq(ctx, case):
+    """default quara settings at every scale (the property quantifies over scales 1e-3..1e3).  If the projection raises the
+    truncate_hs ValueError the PROPERTY fails (reported); the nearest-point checks are then still run under a threshold that
+    admits the rounding noise, so that a second defect is not hidden behind the first."""
+    scale = case["scale"]
+    try:
+        with quara_atol() as atol:
+            _ineq_body(ctx, case, atol, True)
+        return
+    except ValueError as e:
+        if not is_truncate_error(e):
+            raise
+        err = str(e)[:60]
+    who = "%s inequality projection (%s input of scale %g, default settings atol=1e-13)" % (cls_of(case["type"]).__name__, "+".join(sorted(set(case["kinds"]))), scale)
+    try:
+        with quara_atol(1e-14 * max(scale, 10.0)) as atol:
+            _ineq_body(ctx, case, atol, False)
+    except ValueError as e:
+        if not is_truncate_error(e):
+            raise
+        ctx.violation("ineq", SITE_TRUNC, "raises:non-real-output",
+                      "%s raises ValueError('%s...') and still does with the threshold relaxed to %.0e: the rebuilt operator has genuinely complex coefficients (not Hermitian - e.g. a missing conjugate)" % (who, err, 1e-14 * max(scale, 10.0)), case)
+        return
+    ctx.violation("ineq", SITE_TRUNC, "raises-at-large-scale" if scale > 10 else "raises",
+                  "%s raises ValueError('%s...'): the imaginary parts it rejects are rounding noise (the call succeeds and is judged under Settings.set_atol(%.0e))" % (who, err, 1e-14 * max(scale, 10.0)), case)
 
 
 def ineq_plan(ctx):
@@ -643,15 +700,15 @@ def ineq_plan(ctx):
                 ("mprocess", "1q", 6), ("mprocess", "1t", 1.5), ("mprocess", "2q", 0.3)]
     return [("state", "1q", 3), ("state", "1t", 3), ("state", "2q", 3), ("state", "qt", 4), ("state", "tq", 2),
             ("povm", "1q", 3), ("povm", "1t", 3), ("povm", "2q", 3), ("povm", "qt", 3), ("povm", "tq", 1),
-            ("gate", "1q", 6), ("gate", "1t", 4), ("gate", "2q", 1.5),
+            ("gate", "1q", 6), ("gate", "1t", 4), ("gate", "2q", 1.0),
             ("mprocess", "1q", 5), ("mprocess", "1t", 2), ("mprocess", "2q", 0.6)]
 
 
 def sub_ineq(ctx):
-    cases = gen_ineq_cases(ctx, ctx.n(220, 1500), ineq_plan(ctx))
+    cases = gen_ineq_cases(ctx, ctx.n(220, 800), ineq_plan(ctx))
     if not ctx.quick:
         # qubit x qutrit gates / instruments: 36 x 36 Choi matrices, the exact decision takes several seconds each
-        cases += gen_ineq_cases(ctx, 4, [("gate", "qt", 1)]) + gen_ineq_cases(ctx, 1, [("gate", "tq", 1)]) + gen_ineq_cases(ctx, 1, [("mprocess", "qt", 1)])
+        cases += gen_ineq_cases(ctx, 2, [("gate", "qt", 1)]) + gen_ineq_cases(ctx, 1, [("gate", "tq", 1)]) + gen_ineq_cases(ctx, 1, [("mprocess", "qt", 1)])
     ctx.sample("ineq", dict(cases[0], data=cases[0]["data"][:8]))
     ctx.run_cases("ineq", chk_ineq, cases)
 
@@ -689,32 +746,107 @@ def sub_errors(ctx):
 
 # ---------------------------------------------------------------------------------- default settings at scale 1e3
 def chk_large(ctx, case):
+    """raw Gaussian parameter vectors of scale 1e3, DEFAULT settings, object- and variable-level, flag False"""
     T = case["type"]; c = get_sys(case["sys"]); d = c.dim; m = case["m"]
+    C = cls_of(T)
     x = np.array(case["data"], dtype=np.float64)
-    from quara.settings import Settings
-    Settings.set_atol(DEFAULT_ATOL)
-    obj = build(T, c, x, m, False)
     ctx.count("large", key=(T, case["sys"], case["seed"]), nontrivial=True, label="%s/%s" % (T, case["sys"]))
-    try:
-        p = obj.calc_proj_ineq_constraint()
-    except ValueError as e:
-        ctx.violation("large", "matrix_util.truncate_hs<-calc_proj_ineq_constraint", "raises-at-large-scale",
-                      "%s.calc_proj_ineq_constraint raises ValueError('%s...') on a generic input of scale 1e3 with default settings: the absolute threshold atol=1e-13 rejects the rounding noise of the imaginary parts" % (cls_of(T).__name__, str(e)[:60]), case)
-        return
-    with atol_for_scale(10.0) as atol:
-        check_projection_pair(ctx, case, cls_of(T).__name__ + ".calc_proj_ineq_constraint", "%s/%s/scale=1e3/default" % (T, case["sys"]),
+    with quara_atol() as atol:
+        obj = build(T, c, x, m, False)
+        try:
+            p = obj.calc_proj_ineq_constraint()
+            v = x.copy()
+            out = np.array(C.calc_proj_ineq_constraint_with_var(c, v, on_para_eq_constraint=False), dtype=np.float64)
+        except ValueError as e:
+            if not is_truncate_error(e):
+                raise
+            noise = True
+            try:
+                with quara_atol(1e-11):
+                    build(T, c, x, m, False).calc_proj_ineq_constraint()
+            except ValueError as e2:
+                if not is_truncate_error(e2):
+                    raise
+                noise = False
+            ctx.violation("large", SITE_TRUNC, "raises-at-large-scale" if noise else "raises:non-real-output",
+                          "%s.calc_proj_ineq_constraint raises ValueError('%s...') on a generic input of scale 1e3 with default settings: %s" % (
+                              C.__name__, str(e)[:60], "the absolute threshold atol=1e-13 rejects the rounding noise of the imaginary parts" if noise else
+                              "the rebuilt operator has genuinely complex coefficients (still raises with the threshold relaxed to 1e-11)"), case)
+            return
+        bucket = "%s/%s/scale=1e3/default" % (T, case["sys"])
+        if not np.array_equal(v, x):
+            ctx.violation("large", C.__name__ + ".calc_proj_ineq_constraint_with_var", "mutates-argument", "var modified in place (%s)" % bucket, case)
+        if maxabs(out, stacked(p)) > TOL_EQ * 1e3:
+            ctx.violation("large", C.__name__ + ".calc_proj_ineq_constraint_with_var", "object-vs-variable",
+                          "variable-level and object-level inequality projections differ by %.3e (%s)" % (maxabs(out, stacked(p)), bucket), case)
+        check_projection_pair(ctx, case, C.__name__ + ".calc_proj_ineq_constraint", bucket,
                               operators(T, c, x, m), operators(T, c, stacked(p), m), atol, np.random.default_rng(case["seed"]), case, ncomp=8)
 
 
 def sub_large(ctx):
     rng = ctx.rng
     cases = []
-    for T, sk in [("gate", "2q"), ("gate", "1t"), ("state", "2q"), ("povm", "1t"), ("mprocess", "1t")] * ctx.n(1, 3):
+    for T, sk in [("gate", "2q"), ("gate", "1t"), ("state", "2q"), ("povm", "1t"), ("mprocess", "1t"), ("povm", "2q"), ("state", "qt")] * ctx.n(1, 3):
         d = get_sys(sk).dim; m = 2 if T in ("povm", "mprocess") else 1
         cases.append({"type": T, "sys": sk, "m": m, "seed": rng.getrandbits(32),
                       "data": [rng.gauss(0, 1) * 1e3 for _ in range(m * blocklen(T, d))]})
     ctx.sample("large", dict(cases[0], data=cases[0]["data"][:8]))
     ctx.run_cases("large", chk_large, cases)
+
+
+# ---------------------------------------------------------------------------------- eigh -> clip -> rebuild (algorithm model)
+def model_eig_clip(ctx, w, U):
+    """Model/C04_EigClip.v eig_clip, executed exactly on the float values of LAPACK's (w, U)"""
+    from common.model import cflat
+    k = len(w)
+    v = ctx.get_model().call("c04.eig_clip", [k], [float(t) for t in w] + cflat(np.asarray(U, dtype=complex)))
+    a = np.array([float(t) for t in v], dtype=float).reshape(k, k, 2)
+    return a[..., 0] + 1j * a[..., 1]
+
+
+def chk_eigclip(ctx, case):
+    """the implementation's output operator against the Coq model of its own algorithm (theorem C04_eig_clip_nearest:
+    given eigh's contract the model IS the nearest PSD point), fed with the (w, U) that np.linalg.eigh returns for the
+    operator the code decomposes; eigh's contract is checked numerically."""
+    T = case["type"]; c = get_sys(case["sys"]); m = case["m"]; scale = case["scale"]
+    C = cls_of(T); name = C.__name__
+    x = np.array(case["data"], dtype=np.float64)
+    bucket = "%s/%s/m%d/%s/scale=%g" % (T, case["sys"], m, "+".join(sorted(set(case["kinds"]))), scale)
+    with quara_atol() as atol:
+        obj = build(T, c, x, m, False)
+        try:
+            p = obj.calc_proj_ineq_constraint()
+        except ValueError as e:
+            if not is_truncate_error(e):
+                raise
+            ctx.count("eigclip", key=None, nontrivial=False, label="skipped:truncate_hs-raises (reported by ineq/large)")
+            return
+        Ys = operators(T, c, x, m); Xs = operators(T, c, stacked(p), m)
+        for idx, (Y, X) in enumerate(zip(Ys, Xs)):
+            k = Y.shape[0]
+            w, U = np.linalg.eigh(Y)                       # what the code calls on this operator
+            s = max(float(np.linalg.norm(Y)), atol)
+            nontriv = bool((w < -1e-9 * s).any() and (w > 1e-9 * s).any() and float(np.abs(Y.imag).max()) > 1e-9 * s)
+            ctx.count("eigclip", key=(T, case["sys"], m, case["seed"], idx), nontrivial=nontriv, label="%s/k=%d" % (T, k))
+            cu = float(np.abs(U.conj().T @ U - np.eye(k)).max())
+            cy = float(np.linalg.norm((U * w) @ U.conj().T - Y))
+            if cu > 1e-10 or cy > 1e-10 * s + 1e-9 * antiherm(Y):
+                ctx.violation("eigclip", "np.linalg.eigh<-calc_proj_ineq_constraint", "eigh-contract",
+                              "the hypothesis of C04_eig_clip_nearest fails for the operator the code decomposes: |U^dagger U - I| = %.3e, |U w U^dagger - Y| = %.3e (|Y| = %.3e, operator %d, %s)" % (cu, cy, s, idx, bucket), case)
+                continue
+            Xm = model_eig_clip(ctx, w, U)
+            dev = float(np.linalg.norm(Xm - X))
+            if dev > 1e-9 * s + 100 * atol * k:
+                ctx.violation("eigclip", name + ".calc_proj_ineq_constraint", "differs-from-eig-clip-model",
+                              "output operator %d differs from U diag(clip(w)) U^dagger (Coq model on LAPACK's w, U) by %.3e (|Y| = %.3e, %s)" % (idx, dev, s, bucket), case)
+
+
+def sub_eigclip(ctx):
+    plan = [("state", "1q", 3), ("state", "1t", 3), ("state", "2q", 3), ("state", "qt", 2), ("povm", "1q", 3), ("povm", "1t", 3), ("povm", "2q", 2),
+            ("gate", "1q", 4), ("gate", "1t", 2), ("gate", "2q", 0.7), ("mprocess", "1q", 3), ("mprocess", "1t", 0.7)]
+    cases = gen_ineq_cases(ctx, ctx.n(60, 400), plan)
+    ctx.sample("eigclip", dict(cases[0], data=cases[0]["data"][:8]))
+    ctx.run_cases("eigclip", chk_eigclip, cases)
 
 
 # ---------------------------------------------------------------------------------- certificate self-test
@@ -778,8 +910,8 @@ def sub_corpus(ctx):
             ctx.run_cases(doc["sub"], FNS[doc["sub"]], [doc["case"]])
 
 
-SUBS = [("corpus", sub_corpus), ("eq", sub_eq), ("ineq", sub_ineq), ("errors", sub_errors), ("large", sub_large), ("certself", sub_certself)]
-FNS = {"eq": chk_eq, "ineq": chk_ineq, "errors": chk_errors, "large": chk_large, "certself": chk_certself}
+SUBS = [("corpus", sub_corpus), ("eq", sub_eq), ("ineq", sub_ineq), ("errors", sub_errors), ("large", sub_large), ("eigclip", sub_eigclip), ("certself", sub_certself)]
+FNS = {"eq": chk_eq, "ineq": chk_ineq, "errors": chk_errors, "large": chk_large, "eigclip": chk_eigclip, "certself": chk_certself}
 
 
 def run(ctx):
@@ -787,14 +919,15 @@ def run(ctx):
                 "already-feasible / physical), all four types, m=2..5, 1 qubit / qutrit / 2 qubits (qubit x qutrit thorough), both "
                 "flags, object- and variable-level; ineq: inputs generated on the operator side (complex Hermitian: generic, degenerate "
                 "spectra, PSD, rank-deficient boundary, negative definite, zero, barely infeasible) or as raw parameter vectors; "
-                "non-trivial = eq: non-zero input; ineq: complex (not real-symmetric) operators with eigenvalues of both signs; "
+                "eigclip: the ineq generators restricted to operators of size <= 16, flag False; "
+                "non-trivial = eq: non-zero input; ineq / eigclip: complex (not real-symmetric) operators with eigenvalues of both signs; "
                 "distinct = distinct (type, system, m, flag, seed)")
     ctx.assumptions = [
         "C04: inequality projections are judged by the verified certificate on the operators produced by the implementation's own "
         "vec->density / vecs->matrices / HS->Choi conversions (their correctness and isometry are C02's subject; the isometry is "
         "re-checked numerically per case)",
         "C04: certificate slack eps = 1e-10*s + 100*atol, delta = eps*s (s = Frobenius norm of the operator, atol = quara Settings atol)",
-        "C04: scales > 10 run under Settings.set_atol(1e-14*scale) (default settings at scale 1e3 are asserted by sub-check `large`)",
+        "C04: all scales run under quara's default settings (atol 1e-13); only after a reported truncate_hs ValueError the case is re-run under Settings.set_atol(1e-14*scale)",
     ]
     flow.standard_run(ctx, SUBS)
 
